@@ -963,7 +963,7 @@ fn ctxsel(r: &mut Rng, c: &GenCfg) -> usize {
 const FAMS: &[Fam] = &[
     Fam { name: "fields", cost: 60, gen: |r, _| Op::new(*r.pick(&["fq_ops", "fr_ops", "fq2_ops", "fq6_ops", "fq12_ops", "fields_lite"]), &[r.below(8), r.below(8)]) },
     Fam { name: "misc", cost: 40, gen: |r, _| if r.chance(1, 2) { Op::new("misc", &[r.below(8), r.below(100_000)]) } else { Op::new("field_random", &[r.below(5), r.below(40)]) } },
-    Fam { name: "h2f", cost: 30, gen: |r, _| Op::new("h2f", &[r.below(4), r.below(2), r.below(6), r.below(4), r.below(3)]) },
+    Fam { name: "h2f", cost: 30, gen: |r, _| Op::new("h2f", &[r.below(4), r.below(2), r.below(6), r.below(6), r.below(3), r.below(2)]) },
     Fam { name: "arith", cost: 10, gen: |r, _| gop("arith", &[r.below(8), r.below(8)], r) },
     Fam { name: "mul", cost: 300, gen: |r, _| gop(["mul", "amul", "ymul"][r.below(3)], &[r.below(8), rk(r)], r) },
     Fam { name: "affine", cost: 30, gen: |r, _| if r.chance(1, 2) { gop("affine", &[r.below(8)], r) } else { gop("batchnorm", &[r.below(8), r.below(6)], r) } },
@@ -1004,7 +1004,7 @@ const FAMS: &[Fam] = &[
     },
     Fam { name: "encode", cost: 200, gen: |r, _| if r.chance(1, 3) { gop("compress", &[r.below(6)], r) } else { gop("decode", &[r.below(20), r.below(2)], r) } },
     Fam { name: "serdes", cost: 400, gen: |r, _| match r.below(4) { 0 => Op::new("fr_serdes", &[r.below(8), r.below(3)]), 1 => Op::new("fq12_serdes", &[r.below(6), r.below(3)]), _ => gop("serdes", &[r.below(6), r.below(2), r.below(2), r.below(3)], r) } },
-    Fam { name: "h2c", cost: 1200, gen: |r, _| gop(if r.chance(1, 2) { "h2c" } else { "e2c" }, &[r.below(4), r.below(6), r.below(4)], r) },
+    Fam { name: "h2c", cost: 1200, gen: |r, _| gop(if r.chance(1, 2) { "h2c" } else { "e2c" }, &[r.below(4), r.below(6), r.below(6), r.below(2)], r) },
     Fam { name: "insub", cost: 400, gen: |r, _| gop("insub", &[r.below(8)], r) },
     Fam { name: "prepare", cost: 300, gen: |r, _| gop("prepare", &[r.below(6)], r) },
     Fam { name: "miller", cost: 1500, gen: |r, _| Op::new("miller", &[r.below(4), r.below(6), r.below(6), r.below(2)]) },
